@@ -254,7 +254,7 @@ def monOp (op : String) (args : List String) : Option String :=
     let (sb, ts) ← pNat ts
     let (sa, _) ← pNat ts
     let amp := match p.ptype with | .stable a => a | .cp => 1
-    some (verdict (monSsLp amp p.decimals (p.assets.map (·.amount)) after sb sa))
+    some (verdict (monSsLpF (some p.fees) amp p.decimals (p.assets.map (·.amount)) after sb sa))
   | "mon_farm_expand" => do
     let (xs, ts) ← pRepeat pNat 6 args
     let (same, _) ← pBit ts
